@@ -985,3 +985,66 @@ Q(name="e2_gso_probe_leaves_socket_clean", props=["C19"], crate="quinn-udp", fun
   functions=["gso::max_gso_segments"], pre=lambda c: "true", post=gso_post,
   bounds="every outcome of the kernel-version check and of each setsockopt (opaque FFI): when the function returns, no successful UDP_SEGMENT setsockopt with a non-zero size is the last one - transmits that carry no UDP_SEGMENT control message are therefore never segmented by the kernel; assumption: switching the option off right after it was switched on does not fail (the code ignores that result)",
   replay=("udp_gso_probe_native", lambda m: [dict(x=0)]))
+
+
+# ------------------------------------------------------------------ C08: what the idle and close timers are armed with (RFC 9000 10.1: max(idle timeout, 3 PTO); 10.2: 3 PTO)
+def _timer_idx(c, name):
+    return c.ex.enums["Timer"].index(name)
+
+
+def _conn(c, n):
+    return "*_1.%d" % c.field("connection/mod.rs", "Connection", n)
+
+
+def _timer_call(x):
+    """(timer index, canonical origin of the instant) of a TimerTable::set / stop call"""
+    t = x[1][1]
+    idx = int(re.search(r"'Timer', (\d+)\)", str(t[1])).group(1)) if t[0] == "other" else None
+    when = x[1][2][1] if len(x[1]) > 2 and x[1][2][0] == "agg" else None
+    return idx, when
+
+
+def rit_post(c, p):
+    st = p.p.state
+    tt = [x for x in st.calls if re.search(r"TimerTable::(set|stop)$", x[0])]
+    idle = _conn(c, "idle_timeout")
+    has_idle = eq(c.inp(idle + "#discr", I64), bv(1))
+    closed = "(bvuge %s %s)" % (c.inp(_st(c), I64), bv(2))
+    if not tt:
+        return not_(has_idle)                       # idle timeout disabled: the timer is left alone
+    if len(tt) != 1:
+        return "false"
+    idx, when = _timer_call(tt[0])
+    if idx != _timer_idx(c, "Idle"):
+        return "false"
+    if tt[0][0].endswith("stop"):
+        return and_(has_idle, closed)               # a closed connection no longer idles out
+    pto3 = "call:Duration::checked_mul(call:Connection::pto(*_1,_3),(_ bv3 32))@Some.0"
+    t = idle + "@Some.0"
+    want = ["call:<Instant as Add<Duration>>::add(_2,call:<Duration as Ord>::max(%s,%s))" % (a, b) for a, b in ((t, pto3), (pto3, t))]
+    return and_(has_idle, not_(closed), "true" if when in want else "false")
+
+
+Q(name="e2_reset_idle_timeout", props=["C08"], func=r"connection/mod\.rs:245:1[^>]*>::reset_idle_timeout$",
+  inline=[r"State::is_closed$"], pure=[r"Connection::pto$", r"checked_mul$", r"Ord>::max$", r"Add<Duration>>::add$"], allowed_panics=r"expect_failed",
+  functions=["Connection::reset_idle_timeout"], pre=lambda c: and_(ule(c.inp(_st(c), I64), bv(4)), ule(c.inp(_conn(c, "idle_timeout") + "#discr", I64), bv(1))), post=rit_post,
+  bounds="every lifecycle state, idle timeout present or not, every packet-number space: the Idle timer is untouched without an idle timeout, stopped on a closed connection, and otherwise set to now + max(idle_timeout, 3 * pto(space)); Duration / Instant arithmetic and pto are uninterpreted functions - the obligation is WHICH values are combined how",
+  replay=("conn_idle_close_timers_native", lambda m: [dict(state=s, has_idle=h) for s in (0, 1, 2) for h in (0, 1)]))
+
+
+def sct_post(c, p):
+    st = p.p.state
+    tt = [x for x in st.calls if re.search(r"TimerTable::(set|stop)$", x[0])]
+    if len(tt) != 1 or not tt[0][0].endswith("set"):
+        return "false"
+    idx, when = _timer_call(tt[0])
+    hs = _conn(c, "highest_space")
+    want = "call:<Instant as Add<Duration>>::add(_2,call:Duration::checked_mul(call:Connection::pto(*_1,%s),(_ bv3 32))@Some.0)" % hs
+    return "true" if (idx == _timer_idx(c, "Close") and when == want) else "false"
+
+
+Q(name="e2_set_close_timer", props=["C08"], func=r"connection/mod\.rs:245:1[^>]*>::set_close_timer$",
+  pure=[r"Connection::pto$", r"checked_mul$", r"Add<Duration>>::add$"], allowed_panics=r"expect_failed",
+  functions=["Connection::set_close_timer"], pre=lambda c: "true", post=sct_post,
+  bounds="every connection state: the Close timer (and only it) is set to now + 3 * pto(highest space); arithmetic uninterpreted",
+  replay=("conn_idle_close_timers_native", lambda m: [dict(state=s, has_idle=1) for s in (0, 1)]))
